@@ -46,6 +46,10 @@ fn small_descs(rng: &mut Rng, repr: &str, random: usize) -> Vec<Desc> {
         out.push(desc(repr, &[0, 1, 3], &[(0, 1), (1, 3), (3, 0)]));
         out.push(desc(repr, &[0, 2, 3, 7, 1000], &[(0, 2), (2, 3), (3, 7), (7, 1000), (1000, 0), (3, 0)]));
         out.push(desc(repr, &[0, 1, 2, 64, 65], &[(0, 1), (1, 2), (2, 0), (2, 64), (64, 65), (65, 64)]));
+        // extreme ids: usize::MAX, MAX - 1, 2^63
+        out.push(desc(repr, &[0, usize::MAX], &[(0, usize::MAX), (usize::MAX, 0)]));
+        out.push(desc(repr, &[0, 1, usize::MAX - 1, usize::MAX], &[(0, 1), (1, usize::MAX - 1), (usize::MAX - 1, usize::MAX), (usize::MAX, 0)]));
+        out.push(desc(repr, &[1 << 63, usize::MAX], &[(1 << 63, usize::MAX)]));
         for _ in 0..random {
             out.push(graphs::gen_am_sparse(rng, 7).1);
         }
@@ -59,6 +63,11 @@ fn small_descs(rng: &mut Rng, repr: &str, random: usize) -> Vec<Desc> {
     if repr == "wi" {
         out = out.into_iter().map(|d| weighted(d, rng, -3, 9)).collect();
     }
+    if repr == "wu" || repr == "wi" {
+        // weights around 2^50 … 2^58 whose path sums still fit
+        let big = desc(repr, &[0, 1, 2, 3], &[(0, 1), (1, 2), (2, 3), (0, 3), (3, 0)]);
+        out.push(weighted(big, rng, 1 << 50, 1 << 58));
+    }
     out
 }
 
@@ -66,6 +75,12 @@ fn small_descs(rng: &mut Rng, repr: &str, random: usize) -> Vec<Desc> {
 fn vargs(d: &Desc) -> Vec<usize> {
     let n = d.order();
     let mut v = vec![n, n + 1, FAR];
+    if d.verts.last().is_some_and(|&x| x > FAR) || crate::stress() {
+        v.extend([usize::MAX, usize::MAX - 1, 1 << 63, 1 << 62, usize::MAX / 2]);
+        if n > 0 {
+            v.push((usize::MAX / n).wrapping_add(1)); // u * order wraps to a small number in release
+        }
+    }
     if let Some(&x) = d.verts.first() {
         v.push(x);
     }
@@ -147,7 +162,94 @@ fn applies(name: &str, repr: &str) -> bool {
     }
 }
 
+/// Out-of-distribution stream (`gharness gen C13 <seed> stress`): large orders, stacks / heaps above
+/// 65 536 entries, the matrix iterator above 2048², extreme vertex arguments. Class-only models.
+fn gen_stress(rng: &mut Rng, emit: &mut dyn FnMut(String)) {
+    let consumers = ["arcs", "bfs", "dfs", "dfs_pred", "bfs_dist", "degree_sequence", "indegree_sequence", "converse",
+        "complement", "is_semicomplete", "is_tournament", "tarjan"];
+    for repr in graphs::UNWEIGHTED {
+        for n in [192usize, 257, 363, 512, 513, 770, 1100, 2048] {
+            let cheap = ["path", "cycle", "circuit", "star", "empty", "rrt", "wheel"];
+            for name in cheap {
+                if n > 1100 && (repr != "mx" || name == "star" || name == "wheel") && name != "path" {
+                    continue;
+                }
+                let st = if name == "rrt" { format!("[gen {repr} rrt {n} 7]") } else { format!("[gen {repr} {name} {n}]") };
+                let c1 = *rng.pick(&consumers);
+                let c2 = *rng.pick(&consumers);
+                emit(format!("chk_chain {st} [] {c1}"));
+                emit(format!("chk_chain {st} [{}] {c2}", rng.pick(&["cnv", "uni", "dbl", "cln"])));
+            }
+            if n <= 513 && repr != "el" {
+                // dense: a vertex pushes > 65 536 stack / queue entries at order 363 and above
+                for name in ["complete", "rt"] {
+                    let st = if name == "rt" { format!("[gen {repr} rt {n} 7]") } else { format!("[gen {repr} {name} {n}]") };
+                    for c in ["dfs", "dfs_pred", "bfs", "arcs", "is_tournament"] {
+                        emit(format!("chk_chain {st} [] {c}"));
+                    }
+                }
+            }
+        }
+    }
+    // re-polled iterators and traversals over long sparse digraphs (explicit descriptions)
+    for repr in graphs::ALL_REPRS {
+        for n in [257usize, 1100] {
+            let path: Vec<(usize, usize)> = (0..n - 1).map(|u| (u, u + 1)).collect();
+            let mut d = desc(repr, &(0..n).collect::<Vec<_>>(), &path);
+            if repr == "wu" || repr == "wi" {
+                d = weighted(d, rng, 1, 5);
+            }
+            let dv = d.to_v();
+            for name in ["arcs", "vertices", "degree_sequence", "sinks"] {
+                emit(format!("chk_repoll {name} {dv}"));
+            }
+            emit(format!("chk_interleave arcs {dv} {dv}"));
+            for k in ["bfs", "dfs", "bfs_pred", "dfs_dist"] {
+                emit(format!("chk_it {k} {dv} [0] 3"));
+                emit(format!("chk_it {k} {dv} [{} 0] 2 2", n - 1));
+            }
+            emit(format!("chk_twice tarjan {dv}"));
+        }
+    }
+    // extreme vertex arguments on every vertex-argument operation (release: index arithmetic wraps)
+    for repr in graphs::ALL_REPRS {
+        for d in small_descs(rng, repr, 1) {
+            let dv = d.to_v();
+            for &x in &vargs(&d) {
+                for name in Q_VERTEX1 {
+                    if applies(name, repr) && name != "bfm_new" {
+                        emit(format!("chk_q {name} {dv} {x}"));
+                    }
+                }
+                for &y in &vargs(&d) {
+                    for name in ["has_arc", "add_arc", "remove_arc", "toggle"] {
+                        if applies(name, repr) {
+                            emit(format!("chk_q {name} {dv} {x} {y}"));
+                        }
+                    }
+                }
+                for k in ["bfs", "dfs", "dfs_pred"] {
+                    emit(format!("chk_it {k} {dv} [{x}] 2"));
+                }
+            }
+        }
+    }
+    for n in [3usize, 9, 65, 1000] {
+        let ids = [0, n - 1, n, usize::MAX, usize::MAX - 1, 1 << 63, 1 << 62, (usize::MAX / n).wrapping_add(1), usize::MAX / n];
+        for _ in 0..40 {
+            let steps: Vec<String> = (0..6)
+                .map(|_| format!("[{} {} {}]", rng.pick(&["add", "tog", "rem", "has"]), rng.pick(&ids), rng.pick(&ids)))
+                .collect();
+            emit(format!("chk_mx {n} [{}]", steps.join(" ")));
+        }
+    }
+}
+
 pub fn gen(rng: &mut Rng, thorough: bool, emit: &mut dyn FnMut(String)) {
+    if crate::stress() {
+        gen_stress(rng, emit);
+        return;
+    }
     let random = if thorough { 12 } else { 3 };
     let mut leak: Vec<String> = Vec::new();
     let us = |v: &[usize]| V::us(v.iter().copied()).to_string();
@@ -314,7 +416,7 @@ pub fn gen(rng: &mut Rng, thorough: bool, emit: &mut dyn FnMut(String)) {
             // binary operations with every digraph of the same representation
             if applies("union", repr) {
                 for e in descs {
-                    for name in ["union", "is_subdigraph", "is_superdigraph", "is_spanning_subdigraph"] {
+                    for name in ["union", "is_subdigraph", "is_superdigraph", "is_spanning_subdigraph", "clone_from"] {
                         qb.push(format!("chk_q {name} {dv} {}", e.to_v()));
                     }
                 }
@@ -444,7 +546,12 @@ pub fn gen(rng: &mut Rng, thorough: bool, emit: &mut dyn FnMut(String)) {
             for s in &srcs {
                 for k in kinds {
                     let rounds = 1 + rng.below(3);
-                    let line = format!("chk_it {k} {dv} {} {rounds}", us(s));
+                    let shape = rng.below(6); // 0, 4, 5: exact size_hint; 1..3: the lazy shapes
+                    let line = if (1..=3).contains(&shape) {
+                        format!("chk_it {k} {dv} {} {rounds} {shape}", us(s))
+                    } else {
+                        format!("chk_it {k} {dv} {} {rounds}", us(s))
+                    };
                     if k.starts_with("dijkstra") { dij.push(line) } else { it.push(line) }
                 }
                 let tg = vec![*rng.pick(&va), *rng.pick(&va)];
@@ -466,6 +573,173 @@ pub fn gen(rng: &mut Rng, thorough: bool, emit: &mut dyn FnMut(String)) {
     it.flush(rng, thorough, 900, 300_000, emit, &mut leak);
     alg.flush(rng, thorough, 600, 300_000, emit, &mut leak);
     dij.flush(rng, thorough, 400, 300_000, emit, &mut leak);
+
+
+    // ---------------------------------------------------------------- round 2
+    // (a) `From<rows | maps | pairs>` with valid and invalid heads mixed in every position, then
+    //     (when the constructor returned) every operation / algorithm on the result
+    let mut bk = Bucket::new();
+    for n in 1usize..=4 {
+        let bases: Vec<Vec<Vec<usize>>> = vec![
+            vec![vec![]; n],
+            (0..n).map(|u| if u + 1 < n { vec![u + 1] } else { vec![] }).collect(),
+            (0..n).map(|u| if n > 1 { vec![(u + 1) % n] } else { vec![] }).collect(),
+            (0..n).map(|u| (0..n).filter(|&v| v != u).collect()).collect(),
+        ];
+        for base in &bases {
+            let show_sets = |rows: &Vec<Vec<usize>>| {
+                format!("[{}]", rows.iter().map(|r| us(r)).collect::<Vec<_>>().join(" "))
+            };
+            let show_maps = |rows: &Vec<Vec<usize>>| {
+                format!(
+                    "[{}]",
+                    rows.iter()
+                        .map(|r| format!("[{}]", r.iter().map(|v| format!("[{v} {}]", 1 + v % 7)).collect::<Vec<_>>().join(" ")))
+                        .collect::<Vec<_>>()
+                        .join(" ")
+                )
+            };
+            let mut variants: Vec<Vec<Vec<usize>>> = vec![base.clone()];
+            for u in 0..n {
+                let valid: Vec<usize> = (0..n).filter(|&v| v != u).collect();
+                let mut extra: Vec<Vec<usize>> = vec![
+                    vec![n], vec![n + 1], vec![FAR], vec![usize::MAX], vec![n, n + 1], vec![u],
+                ];
+                if let Some(&a) = valid.first() {
+                    let z = *valid.last().unwrap_or(&a);
+                    extra.extend([
+                        vec![a, n],             // smallest valid, largest invalid
+                        vec![a, n + 1],
+                        vec![a, FAR],
+                        vec![a, usize::MAX],
+                        vec![a, n, usize::MAX], // valid, invalid in the middle, invalid
+                        vec![a, z, n],
+                        vec![a, u],             // self-loop not first (when a < u) / first (when a > u)
+                        vec![a, z, u],
+                        vec![u, n],
+                    ]);
+                }
+                for e in extra {
+                    let mut rows = base.clone();
+                    let mut r: Vec<usize> = rows[u].iter().copied().chain(e).collect();
+                    r.sort_unstable();
+                    r.dedup();
+                    rows[u] = r;
+                    variants.push(rows);
+                }
+            }
+            for rows in variants {
+                bk.push(format!("chk_rows_all al {}", show_sets(&rows)));
+                bk.push(format!("chk_rows_all am {}", show_sets(&rows)));
+                bk.push(format!("chk_rows_all wu {}", show_maps(&rows)));
+                bk.push(format!("chk_rows_all wi {}", show_maps(&rows)));
+                // arc lists: the same arcs in row order, reversed, and with the invalid ones first
+                let pairs: Vec<(usize, usize)> =
+                    rows.iter().enumerate().flat_map(|(u, r)| r.iter().map(move |&v| (u, v))).collect();
+                if pairs.iter().all(|&(u, v)| u.max(v) < 64) {
+                    let fwd = V::pairs(pairs.iter().copied()).to_string();
+                    let rev = V::pairs(pairs.iter().rev().copied()).to_string();
+                    for r in ["mx", "el"] {
+                        bk.push(format!("chk_rows_all {r} {fwd}"));
+                        bk.push(format!("chk_rows_all {r} {rev}"));
+                    }
+                }
+            }
+        }
+    }
+    bk.push("chk_rows_all al []".to_string());
+    bk.push("chk_rows_all wi []".to_string());
+    bk.push("chk_rows_all mx []".to_string());
+    bk.push("chk_rows_all el []".to_string());
+    bk.flush(rng, thorough, 420, 100_000, emit, &mut leak);
+
+    // (b) every iterator the API returns: re-polled after `None`, two of them interleaved
+    let mut bk = Bucket::new();
+    let iters = ["arcs", "vertices", "sinks", "sources", "degree_sequence", "indegree_sequence", "outdegree_sequence",
+        "semidegree_sequence", "arcs_weighted"];
+    let iters1 = ["out_neighbors", "in_neighbors", "out_neighbors_weighted"];
+    for (repr, descs) in &by_repr {
+        for d in descs {
+            let dv = d.to_v();
+            for name in iters {
+                if !applies(name, repr) {
+                    continue;
+                }
+                bk.push(format!("chk_repoll {name} {dv}"));
+                if name != "arcs_weighted" {
+                    for e in descs.iter().take(6) {
+                        bk.push(format!("chk_interleave {name} {dv} {}", e.to_v()));
+                    }
+                    bk.push(format!("chk_interleave {name} {dv} {dv}"));
+                }
+            }
+            for name in iters1 {
+                if !applies(name, repr) {
+                    continue;
+                }
+                for &x in &vargs(d) {
+                    bk.push(format!("chk_repoll {name} {dv} {x}"));
+                    if name != "out_neighbors_weighted" {
+                        bk.push(format!("chk_interleave {name} {dv} {dv} {x}"));
+                    }
+                }
+            }
+        }
+    }
+    for (dist, inf, order) in [("[]", 9isize, 1usize), ("[0]", 9, 1), ("[0 1 2 0]", 9, 2), ("[0 1 2]", 9, 2), ("[0 9 9 0 1 2]", 9, 4), ("[1]", 9, 0)] {
+        bk.push(format!("chk_repoll dm_eccentricities {dist} {inf} {order}"));
+        bk.push(format!("chk_repoll dm_periphery {dist} {inf} {order}"));
+    }
+    bk.flush(rng, thorough, 600, 300_000, emit, &mut leak);
+
+    // (c) seeded generators with seeds next to u64::MAX (a worker adds its thread id to the seed)
+    let mut bk = Bucket::new();
+    for repr in graphs::UNWEIGHTED {
+        for k in 0u64..=16 {
+            let seed = u64::MAX - k;
+            for n in [2usize, 3, 5, 17, 33] {
+                bk.push(format!("chk_gen {repr} rrt {n} {seed}"));
+                bk.push(format!("chk_gen {repr} rt {n} {seed}"));
+                for p in [0.3f64, 0.8] {
+                    if n <= 17 {
+                        bk.push(format!("chk_gen {repr} er {n} {} {seed}", p.to_bits()));
+                    }
+                }
+            }
+        }
+    }
+    for seed in [u64::MAX, u64::MAX - 1, u64::MAX - 15] {
+        bk.push(format!("chk_prng {seed} 50"));
+    }
+    bk.flush(rng, thorough, 260, 100_000, emit, &mut leak);
+
+    // (d) the same entry point three times on the same object
+    let mut bk = Bucket::new();
+    for (repr, descs) in &by_repr {
+        for d in descs {
+            let dv = d.to_v();
+            let a = d.verts.first().copied().unwrap_or(0);
+            for src in [vec![], vec![a], d.verts.iter().copied().filter(|&v| v < d.order()).collect(), vec![d.order()]] {
+                for name in ["bfs_dist_distances", "bfs_pred_predecessors", "dfs_pred_predecessors"] {
+                    bk.push(format!("chk_twice {name} {dv} {}", us(&src)));
+                }
+                if repr == "wu" {
+                    bk.push(format!("chk_twice dijkstra {dv} {}", us(&src)));
+                }
+                if repr == "wi" && !src.is_empty() {
+                    bk.push(format!("chk_twice bfm {dv} {}", us(&src)));
+                }
+            }
+            bk.push(format!("chk_twice tarjan {dv}"));
+            if repr == "am" {
+                bk.push(format!("chk_twice johnson {dv}"));
+            }
+            if repr == "wi" {
+                bk.push(format!("chk_twice fw {dv}"));
+            }
+        }
+    }
+    bk.flush(rng, thorough, 250, 100_000, emit, &mut leak);
 
     // ---------------------------------------------------------------- small types
     let mut bk = Bucket::new();
